@@ -200,3 +200,66 @@ theorem groupBy_flatten_perm (key : α → κ) (l : List α) :
 
 end groupBy
 end Mesa
+
+namespace Mesa
+
+section dedupFirst
+variable {α : Type} [DecidableEq α]
+
+theorem foldl_addKey_eq (l acc : List α) :
+    l.foldl addKey acc = acc ++ dedup (l.filter (fun x => decide (x ∉ acc))) := by
+  generalize hn : l.length = n
+  induction n using Nat.strongRecOn generalizing l acc with
+  | _ n ih =>
+    cases l with
+    | nil => simp [dedup]
+    | cons x l =>
+      subst hn
+      by_cases hx : x ∈ acc
+      · rw [List.foldl_cons, addKey_of_mem hx, ih l.length (by simp) l acc rfl]
+        simp [hx]
+      · rw [List.foldl_cons, addKey_of_not_mem hx, ih l.length (by simp) l (acc ++ [x]) rfl]
+        simp only [List.filter_cons, hx, not_false_eq_true, decide_true, if_true]
+        have h1 : dedup (x :: l.filter (fun y => decide (y ∉ acc))) =
+            [x] ++ dedup ((l.filter (fun y => decide (y ∉ acc))).filter (fun y => decide (y ∉ [x]))) := by
+          show (x :: l.filter (fun y => decide (y ∉ acc))).foldl addKey [] = _
+          rw [List.foldl_cons]
+          have : addKey ([] : List α) x = [x] := by simp [addKey]
+          rw [this]
+          exact ih _ (Nat.lt_succ_of_le (List.length_filter_le _ _)) _ [x] rfl
+        rw [h1, List.filter_filter, List.append_assoc]
+        have hf : l.filter (fun y => decide (y ∉ acc ++ [x])) = l.filter (fun a => decide (a ∉ [x]) && decide (a ∉ acc)) := by
+          apply List.filter_congr
+          intro y _
+          by_cases h1 : y ∈ acc <;> by_cases h2 : y = x <;> simp [h1, h2]
+        rw [hf]
+
+/-- the constructor's de-duplication keeps the **first** occurrence of every agent, in order:
+    the head stays, later copies of it are dropped, and so on — `List.eraseDups` -/
+theorem dedup_cons (a : α) (l : List α) : dedup (a :: l) = a :: dedup (l.filter (fun b => !b == a)) := by
+  show (a :: l).foldl addKey [] = _
+  rw [List.foldl_cons]
+  have : addKey ([] : List α) a = [a] := by simp [addKey]
+  rw [this, foldl_addKey_eq]
+  simp only [List.singleton_append, List.cons.injEq, true_and]
+  congr 1
+  apply List.filter_congr
+  intro y _
+  by_cases hy : y = a <;> simp [hy]
+
+theorem dedup_eq_eraseDups (l : List α) : dedup l = l.eraseDups := by
+  generalize hn : l.length = n
+  induction n using Nat.strongRecOn generalizing l with
+  | _ n ih =>
+    cases l with
+    | nil => simp [dedup]
+    | cons a l =>
+      rw [dedup_cons, List.eraseDups_cons]
+      congr 1
+      apply ih (l.filter (fun b => !b == a)).length _ _ rfl
+      subst hn
+      exact Nat.lt_succ_of_le (List.length_filter_le _ _)
+
+end dedupFirst
+
+end Mesa
